@@ -9,7 +9,7 @@ SQLI="C01 C03 C06 C08 C10 C12 C14 C16 C18"; XSS="C02 C04 C07 C11 C13 C15 C17 C19
 one() {
   n="$1"; d="seeded/$n"
   ids="C20"
-  case "$n" in C05*|C14-r2-2|C15-2|C15-r2-2|C20-2|C20-r2-1|C01-2|C02-r3-1|C03-r3-2|C08-r3-2|C19-r3-*|C04-r4-1|C08-r4-2|C20-r4-2|C14-r4-2|C04-r5-2|C20-r5-*|C20-r6-*) ids="$ids C05";; esac
+  case "$n" in C05*|C14-r2-2|C15-2|C15-r2-2|C20-2|C20-r2-1|C01-2|C02-r3-1|C03-r3-2|C08-r3-2|C19-r3-*|C04-r4-1|C08-r4-2|C20-r4-2|C14-r4-2|C04-r5-2|C20-r5-*|C20-r6-*|C20-r7-*) ids="$ids C05";; esac
   grep -q '^+++ b/sqli' "$d/patch.diff" && ids="$SQLI $ids"
   grep -q '^+++ b/\(xss\|html5\)' "$d/patch.diff" && ids="$XSS $ids"
   case "$n" in C09*) ids="$ids C09";; esac
